@@ -703,7 +703,7 @@ class BaseProxy(_BaseProxy_):
                 self._Client,
                 self._server,
             ),
-            # exitpriority=10,
+            exitpriority=10,
         )
 
     # Changes to the original version:
@@ -773,13 +773,13 @@ def RebuildProxy(func, token, serializer, kwds):
     """
     Function used for unpickling proxy objects.
     """
-    incref = kwds.pop('incref', True) and not getattr(
-        current_process(), '_inheriting', False
-    )
+    # `__reduce__` has incremented the ref count for this pickle, hence the new proxy must take
+    # that reference over (constructor `incref` + finalizer, then the compensating `decref` below)
+    # also while a spawned child process is bootstrapping (`current_process()._inheriting`);
+    # the standard lib skips `incref` in that case, which here would leak the reference.
+    incref = kwds.pop('incref', True)
     obj = func(token, serializer, incref=incref, **kwds)
     # `func` is either `AutoProxy` or a subclass of `BaseProxy`.
-    # TODO: it appears `incref` is True some times and False some others, affecting by the '_inheriting` condition.
-    # Understand the `'_inheriting'` thing.
 
     if incref:
         # Counter the extra `incref` that's done in `BaseProxy.__init__`.
